@@ -118,7 +118,12 @@ def _get_handshake_headers(
     if not options.get("connection"):
         headers.append("Connection: Upgrade")
     else:
-        headers.append(options["connection"])
+        connection = options["connection"]
+        # The option is the header value; a complete "Connection: ..." line
+        # is accepted as well.
+        if not connection.lower().startswith("connection:"):
+            connection = f"Connection: {connection}"
+        headers.append(connection)
 
     if subprotocols := options.get("subprotocols"):
         headers.append(f'Sec-WebSocket-Protocol: {",".join(subprotocols)}')
